@@ -8,7 +8,6 @@ import (
 	"errors"
 	"fmt"
 	"io"
-	"math"
 	"time"
 )
 
@@ -58,14 +57,20 @@ func (b *Bstr[T]) UnmarshalCBORStream(r io.Reader, o DecoderOptions, flattened i
 	if err != nil {
 		return err
 	}
-	if n > math.MaxInt64 {
-		return fmt.Errorf("bstr too long to decode")
+	if n >= MaxArrayDecodeLength {
+		return fmt.Errorf("bstr too long to decode: %d", n)
 	}
-	r = io.LimitReader(r, int64(n))
+	lr := &io.LimitedReader{R: r, N: int64(n)}
 
-	dec = NewDecoder(r)
+	dec = NewDecoder(lr)
 	dec.DecoderOptions = o
-	return dec.Decode(&b.Val)
+	if err := dec.Decode(&b.Val); err != nil {
+		return err
+	}
+	if lr.N != 0 {
+		return fmt.Errorf("bstr contents were not fully consumed, had extra %d bytes", lr.N)
+	}
+	return nil
 }
 
 // ByteWrap is a Bstr that treats Bstr[[]byte] as Bstr[cbor.RawBytes]. While
@@ -102,20 +107,26 @@ func (b *ByteWrap[T]) UnmarshalCBORStream(r io.Reader, o DecoderOptions, flatten
 	if err != nil {
 		return err
 	}
-	if n > math.MaxInt64 {
-		return fmt.Errorf("bytewrap too long to decode")
+	if n >= MaxArrayDecodeLength {
+		return fmt.Errorf("bytewrap too long to decode: %d", n)
 	}
-	r = io.LimitReader(r, int64(n))
+	lr := &io.LimitedReader{R: r, N: int64(n)}
 
 	if bs, ok := any(&b.Val).(*[]byte); ok {
 		*bs = make([]byte, n)
-		_, err := io.ReadFull(r, *bs)
+		_, err := io.ReadFull(lr, *bs)
 		return err
 	}
 
-	dec = NewDecoder(r)
+	dec = NewDecoder(lr)
 	dec.DecoderOptions = o
-	return dec.Decode(&b.Val)
+	if err := dec.Decode(&b.Val); err != nil {
+		return err
+	}
+	if lr.N != 0 {
+		return fmt.Errorf("bytewrap contents were not fully consumed, had extra %d bytes", lr.N)
+	}
+	return nil
 }
 
 // X509Certificate is a newtype for x509.Certificate implementing proper CBOR
